@@ -1,6 +1,7 @@
 package main
 
 import (
+	"strings"
 	"errors"
 	"io"
 	"sync"
@@ -54,9 +55,19 @@ func (s *scriptRWC) Read(p []byte) (int, error) {
 		copy(p, s.in[s.pos:s.pos+n])
 		s.pos += n
 		f := s.onRead
+		glued := s.pos == len(s.in) && strings.HasSuffix(s.term, "-glued")
+		term := s.term
 		s.mu.Unlock()
 		if f != nil {
 			f()
+		}
+		if glued {
+			// a transport that hands over its last bytes together with its end (n > 0 and an error from one Read), as
+			// io.Reader allows and e.g. crypto/tls does when the close notification follows the data
+			if term == "eof-glued" {
+				return n, io.EOF
+			}
+			return n, errScripted
 		}
 		return n, nil
 	}
@@ -64,9 +75,9 @@ func (s *scriptRWC) Read(p []byte) (int, error) {
 	term := s.term
 	s.mu.Unlock()
 	switch term {
-	case "eof":
+	case "eof", "eof-glued":
 		return 0, io.EOF
-	case "err":
+	case "err", "err-glued":
 		return 0, errScripted
 	}
 	<-s.closeCh
